@@ -400,12 +400,16 @@ func (x *xformComp) Class(c Case, impl []string) string {
 
 var xConsts = []string{"a", "ab", "abc", "err", "web", "x", "info", "é", "k=", "[", "]", " "}
 var xHeadPatterns = []string{`\[*\]`, `\[*\] `, `<*>`, `*: `, `[a-z0-9_]:`, `[a-z]`, `id=[0-9] `, `[^ ] `, `(*)`, `[A-Za-z\-]=`, `k=*;`, `[a-]x`,
-	`\[*\] - `, `<*>: `, `[a-z]::`, `*--->`}
-var xTailPatterns = []string{` (*)`, ` [a-z]`, ` #[0-9]`, `=*`, ` \[*\]`, `:[^:]`, ` <*>`, `=[0-9a-f]`, ` -- (*)`, ` ::[a-z]`, `<---*`}
+	`\[*\] - `, `<*>: `, `[a-z]::`, `*--->`, `[a-z=]=`, `[^;];`, `id:[0-9:]:`}
+var xTailPatterns = []string{` (*)`, ` [a-z]`, ` #[0-9]`, `=*`, ` \[*\]`, `:[^:]`, ` <*>`, `=[0-9a-f]`, ` -- (*)`, ` ::[a-z]`, `<---*`,
+	// classes that contain the last byte of the boundary in front of them
+	`=[^ ]`, `/[^ ]`, `-[0-9.\-]`, `(id=[^)])`, ` [a-z ]`}
 
 // xPatParts: left boundary, a label character the pattern accepts, right boundary — to build values whose boundaries sit at
 // every position around the search range
 var xPatParts = map[string][3]string{
+	`=[^ ]`: {"=", "=", ""}, `/[^ ]`: {"/", "/", ""}, `-[0-9.\-]`: {"-", "-", ""}, `(id=[^)])`: {"(id=", "=", ")"}, ` [a-z ]`: {" ", " ", ""},
+	`[a-z=]=`: {"", "=", "="}, `[^;];`: {"", "q", ";"}, `id:[0-9:]:`: {"id:", ":", ":"},
 	`\[*\]`: {"[", "q", "]"}, `\[*\] `: {"[", "q", "] "}, `<*>`: {"<", "q", ">"}, `*: `: {"", "q", ": "}, `[a-z0-9_]:`: {"", "a", ":"},
 	`id=[0-9] `: {"id=", "5", " "}, `[^ ] `: {"", "q", " "}, `(*)`: {"(", "q", ")"}, `[A-Za-z\-]=`: {"", "B", "="}, `k=*;`: {"k=", "q", ";"},
 	`[a-]x`: {"", "a", "x"}, `\[*\] - `: {"[", "q", "] - "}, `<*>: `: {"<", "q", ">: "}, `[a-z]::`: {"", "a", "::"}, `*--->`: {"", "q", "--->"},
@@ -414,7 +418,8 @@ var xPatParts = map[string][3]string{
 }
 var xValues = []string{"", "a", "ab", "abc", "abcdef", "err", "web", "info", "[tag] rest of it", "[ t ] x", "<13>hello", "key: value", "svc_1:payload", "id=12345 tail",
 	"word another", "(p)", "msg (trailer)", "line #42", "héllo wörld", "日本語テキスト", "a\\nb\\tc\\\\d\\", "user foo.bar@domain.fi here", "x@y", "2019-08-15T15:50:46.866915+03:00",
-	"2019-08-15T15:50:46Z", "-", "k=v;rest", "[ ] - blank label", "a= ", "msg ( )", "[\x01\t] x", "end = \x00\x01", "abc=1", "path:/a:b", "end <x>", "v=1f", "  padded  ", "\x00\x01", "\xff\xfe"}
+	"2019-08-15T15:50:46Z", "-", "k=v;rest", "[ ] - blank label", "a= ", "msg ( )", "[\x01\t] x", "end = \x00\x01", "abc=1", "path:/a:b", "end <x>", "v=1f", "  padded  ", "\x00\x01", "\xff\xfe",
+	"request done status=200", "a=b=c", "GET /static/app.js", "package-1.2.3", "job finished (id=42)", "x (id=1) (id=22)", "k=v=;x", "id:12:34:x", "two words here"}
 
 func xVal(rng *rand.Rand) string {
 	switch rng.Intn(8) {
